@@ -897,6 +897,7 @@ class FunctionVerifier:
             self.reg.envelope_type()
         if self.reg.dict_hint in ("RuleChild",):
             self.reg.rule_child_record()
+        self.reg.cur_func = self.qual.split("@")[0].split("#")[0]
         for vi, var in enumerate(self.variants()):
             ex = Executor(self.prog, self.reg, self.qual.split("@")[0].split("#")[0])
             ex.contract_name = self.qual
